@@ -274,13 +274,13 @@ def check_alloc(ctx, prog, tree, f, r, tree_fns):
             ctx.add('POOL', f, 'alloc-sentinel', 'ok' if ok else 'violation',
                     'the constructor reserves the first slot and checks it is the sentinel index' if ok else 'the constructor takes a slot that is not checked to be the sentinel index', PROPS_POOL, line)
             continue
-        # initialisation: every field of the fresh node is written before the function returns
+        # initialisation: every field of the fresh node is written (directly or through a helper) before the function returns
+        from summaries import writes_to
         written = set()
-        for st in b.stores:
-            a = prog.accessor_call(strip(st.root))
-            if a is not None and strip(a[2]) is c and st.fields():
-                if all(b.cfg.dominates(st.point[0], ret) for ret in b.cfg.returns):
-                    written.add(st.fields()[0])
+        wr = writes_to(prog, f, c)
+        for (flds, vd, site, vv) in wr:
+            if flds and all(b.cfg.dominates(site.point[0], ret) for ret in b.cfg.returns):
+                written.add(flds[0])
         missing = fields - written
         problems = []
         if missing:
@@ -293,25 +293,27 @@ def check_alloc(ctx, prog, tree, f, r, tree_fns):
         if returned:
             # parent recorded in the slot
             parent_src = None
-            for st in b.stores:
-                a = prog.accessor_call(strip(st.root))
-                if a is not None and strip(a[2]) is c and st.fields() == ('parent',):
-                    parent_src = strip(st.value)
+            for (flds, vd, site, vv) in wr:
+                if flds == ('parent',) and vv is not None:
+                    parent_src = strip(vv)
             for call, caller in prog.callers(f):
                 if call.kind != 'call':
                     continue
                 cb = caller.body
                 ok = False
-                for st in cb.stores:
-                    a = prog.accessor_call(strip(st.root))
-                    if a is None or st.fields() not in (('left',), ('right',)):
+                from summaries import node_writes
+                for (tgt, flds, vd, site, vv) in node_writes(prog, caller):
+                    if flds not in (('left',), ('right',)) or vv is None or strip(vv) is not call:
                         continue
-                    if strip(st.value) is call and all(cb.cfg.dominates(st.point[0], ret) for ret in cb.cfg.returns):
-                        # under the node recorded as parent
-                        if parent_src is not None and parent_src.kind == 'param':
-                            k = parent_src.args[0]
-                            if k - 1 < len(call.args) and strip(call.args[k - 1]) is strip(a[2]):
-                                ok = True
+                    if not all(cb.cfg.dominates(site.point[0], ret) for ret in cb.cfg.returns):
+                        continue
+                    # under the node recorded as parent
+                    if parent_src is not None and parent_src.kind == 'param':
+                        k = parent_src.args[0]
+                        parent_arg = strip(call.args[k - 1]) if k - 1 < len(call.args) else None
+                        tv = tgt[1] if tgt[0] == 'val' else None
+                        if parent_arg is not None and ((tv is not None and tv is parent_arg) or (tgt[0] == 'param' and parent_arg.kind == 'param' and parent_arg.args[0] == tgt[1])):
+                            ok = True
                 if not ok:
                     problems.append('caller %s does not link the fresh slot as a child of the node recorded as its parent on every path' % caller.name)
         # who may allocate: the linking inserts only
